@@ -79,7 +79,7 @@ static int draw_problem(c3_prob *q, vrng *r, long idx, int kind, int shape){
       if(q->lgx < 0) c->xs = (int)vr_int(r, -1, 0);       /* a block in tiny units can only be centred: scaled options meet the zero-scale guard (C10) */
       if(q->lgy < 0) c->ys = (int)vr_int(r, -1, 0);
     }
-    if(kind == KD_DEGEN){ if(degen == 3) c->xs = 0; if(degen == 4 && c->ny < 2) c->ny = 2; if(degen == 2 && c->p < 2) degen = 0; }
+    if(kind == KD_DEGEN){ if(degen == 3) c->xs = 0; if(degen == 4 && c->ny < 2) c->ny = 2; if((degen == 2 || degen == 3) && c->p < 2) degen = 0; /* a constant / duplicated predictor needs an informative one beside it: a single constant predictor is X of rank 0, outside the quantifier (nlv in 1..rank is empty) */ }
     /* K3 moves CENTRED blocks only.  On a block used as it is (option -1) the offset is signal: cond(X) grows with it, and an uncentred
      * response c*1 + s on centred predictors makes X'u cancel down to the rounding of c (error ~ eps*c/|remaining s|, unbounded as the
      * LVs exhaust s) - no bound computable from the input holds there, so such blocks keep the <= 0.5 spreads of the base generator */
